@@ -172,3 +172,35 @@ pub fn c09_failed_rebind() {
     vsym::check("failed-use-db.no-effect", same_lines(&before, &after));
     match process_request("get ab", &n.dbs, &mut c) { Response::Value { key: _, value, version: _ } => vsym::check("failed-use-db.old-rights-kept", value == "8"), _ => vsym::check("failed-use-db.old-rights-kept", false) }
 }
+
+/// a session reaches only the database it selected: `resolve` is the data command that carries a database name of its own;
+/// naming a database the session holds no credential for (never selected / failed use-db / another database's token) must be
+/// refused and must leave that database untouched
+pub fn c09_foreign_database() {
+    let mut n = mk_primary();
+    mk_db(&n.dbs, "d", "none");
+    { let (mut a, _rx) = admin_client(&n.dbs); vsym::assume(is_ok(&process_request("create-db e tk2 none", &n.dbs, &mut a))); }
+    poke(&n.dbs, "d", "k", &String::from("v0"), 5, ValueStatus::Ok, 0, 0);
+    poke(&n.dbs, "e", "k", &String::from("100"), 5, ValueStatus::Ok, 0, 0);
+    let sess = vsym::choice("session", 3);      // 0 fresh, 1 failed use-db e (wrong token), 2 database d selected with its own token
+    vsym::tag_i("session", sess as i64);
+    let (mut c, mut rx) = new_client();
+    if sess == 1 { let r = process_request("use-db e tok", &n.dbs, &mut c); vsym::assume(is_error(&r)); }
+    if sess == 2 { let r = process_request("use-db d tok", &n.dbs, &mut c); vsym::assume(is_ok(&r)); }
+    drain(&mut rx); drain(&mut n.rep_rx);
+    let ver = vsym::any_i32("version"); vsym::assume(ver >= -1 && ver <= 9);
+    let val = vsym::any_token("value", 3); vsym::assume(val.len() >= 1);
+    let line = ["resolve 77 e k ", &ver.to_string(), " ", &val].concat();
+    let e_before: Vec<String> = digest(&mut n).into_iter().filter(|l| l.starts_with("db e ") || l.starts_with("  ")).collect();
+    let all_before = digest(&mut n);
+    let r = process_request(&line, &n.dbs, &mut c);
+    let all_after = digest(&mut n);
+    let ek = peek(&n.dbs, "e", "k").unwrap();
+    vsym::check("foreign-db.key-untouched", ek.value == "100" && ek.version == 5);
+    vsym::check("foreign-db.no-conflict-record", peek(&n.dbs, "e", "$conflicts_k_77").is_none());
+    if sess != 2 {
+        vsym::check("foreign-db.refused", is_error(&r));
+        vsym::check("foreign-db.changes-nothing", same_lines(&all_before, &all_after));
+    }
+    vsym::cover("foreign-db.refused-seen", is_error(&r));
+}
